@@ -1,8 +1,7 @@
 """C19  malformed input from the peer is contained.
 
-PROVISIONAL wrapper (slice c08): only the client-parser half is wired in here
-(`c19_parsers.correspondence_parsers` / `search_parsers`); the server/session half is added by the
-main slice in this same module.
+Client half: `c19_parsers` (listing / passive-reply parsers, model predicts result or exception class).
+Server half: `c19_server` (arbitrary control bytes: contained, bystander undisturbed, slot released).
 """
 from framework import Result
 
@@ -32,18 +31,28 @@ TRUSTED_EXTRA = ["translator harness/extract_client.py (exception tuple and pars
 
 
 def correspondence(ctx):
+    from . import c19_server
+
     res = Result()
     res.merge(c19_parsers.correspondence_parsers(ctx))
+    res.merge(c19_server.run(ctx))
     return res
 
 
 def search(ctx, prior):
+    from . import c19_server
+
     res = Result()
     res.merge(c19_parsers.search_parsers(ctx))
+    res.merge(c19_server.run(ctx, compare=False))
     return res
 
 
 def replay(ctx, doc):
+    if doc["failure"]["input"].get("kind") == "control-bytes":
+        from . import c19_server
+
+        return c19_server.replay(doc["failure"]["input"])
     return c19_parsers.replay_parsers(ctx, doc)
 
 
